@@ -396,6 +396,41 @@ func ruleMergeShape(p *Prog, l *Ledger, tier string) {
 	} else {
 		l.Fail(rule, "Subtitles.Merge", rule+"|order-after-append", p.Pos(fn.Pos()), "Merge does not order the receiver after appending")
 	}
+	// (2b) (round 18) no way out of Merge before the lists have been put together: a return that the append does not
+	// dominate ("nothing to merge" when the argument has no cues) also skips the union of the definitions and the
+	// ordering of the receiver
+	for _, b := range fn.Blocks {
+		r, ok := b.Instrs[len(b.Instrs)-1].(*ssa.Return)
+		if !ok {
+			continue
+		}
+		dominated := false
+		for _, b2 := range fn.Blocks {
+			for _, ins := range b2.Instrs {
+				switch x := ins.(type) {
+				case *ssa.Call:
+					// the append itself, or a call of a helper of the library that receives the argument
+					if bi, isB := x.Call.Value.(*ssa.Builtin); isB && bi.Name() == "append" && instrDominates(x, r) {
+						dominated = true
+					}
+					if sc := x.Call.StaticCallee(); sc != nil && fnPkg(sc) == p.LibSSA && instrDominates(x, r) {
+						for _, a := range x.Call.Args {
+							if a == ssa.Value(arg) {
+								dominated = true
+							}
+							// … or something loaded from the argument (its cues, its maps)
+							if _, _, base := loadedField(a); base == ssa.Value(arg) {
+								dominated = true
+							}
+						}
+					}
+				}
+			}
+		}
+		if !dominated {
+			l.Fail(rule, "Subtitles.Merge", rule+"|early-return", p.Pos(r.Pos()), "Merge can return at "+p.Pos(r.Pos())+" before anything of the argument has been taken (no append, no helper receiving the argument dominates this return): on that path the regions and styles of the argument are not added and the receiver is not ordered, whatever the test that leads there looks at")
+		}
+	}
 	// (3) G7: definitions are added only when absent (receiver wins)
 	nMU := 0
 	for _, b := range p.helperBlocks(fn) {
